@@ -11,6 +11,7 @@ package simrt
 import (
 	"fmt"
 	"hash/fnv"
+	"os"
 	"runtime"
 	"runtime/debug"
 	"sort"
@@ -127,12 +128,16 @@ type Sched struct {
 	herr      string
 	onCrash   func(*Crash)
 	driver    *G
+	nextID    int
+	scratch   []*G
 	simTime   time.Duration
 	stash     map[uintptr]stashed // timer values drained by breakTimerTie, keyed by channel
 	timerTies int
 	capHit    string
 	stuck     string
 }
+
+var schedDebug = os.Getenv("VERIF_SCHED_DEBUG") != ""
 
 var active atomic.Pointer[Sched]
 
@@ -219,7 +224,7 @@ func (s *Sched) fill(res *Result) {
 	res.InterleaveH = s.ih
 	res.EventH = s.eh
 	res.Events = s.events
-	res.Goroutines = len(s.gs)
+	res.Goroutines = s.nextID
 	res.TimerTies = s.timerTies
 	res.SimTime = s.simTime
 	res.CapHit = s.capHit
@@ -236,7 +241,24 @@ func (s *Sched) loop() {
 	for {
 		synctest.Wait()
 		s.mu.Lock()
-		var parked []*G
+		if schedDebug && s.steps%100000 == 0 {
+			fmt.Fprintf(os.Stderr, "SCHED steps=%d live=%d spawned=%d simtime=%v\n", s.steps, len(s.gs), s.nextID, time.Since(s.start))
+		}
+		// goroutines that have exited are dropped from the scan list now and then: a run with endless reconnects spawns
+		// hundreds of thousands of short-lived goroutines
+		if s.steps%512 == 0 {
+			live := s.gs[:0]
+			for _, g := range s.gs {
+				if g.state != gExited {
+					live = append(live, g)
+				}
+			}
+			for i := len(live); i < len(s.gs); i++ {
+				s.gs[i] = nil
+			}
+			s.gs = live
+		}
+		parked := s.scratch[:0]
 		var bad *G
 		now := time.Now()
 		var nextStall time.Time
@@ -296,6 +318,7 @@ func (s *Sched) loop() {
 				return
 			}
 		}
+		s.scratch = parked
 		g := s.pick(parked)
 		if g != s.lastRun {
 			s.switches++
@@ -370,7 +393,8 @@ func allStacks() string {
 
 func (s *Sched) spawn(parent *G, name string, f func()) *G {
 	s.mu.Lock()
-	g := &G{ID: len(s.gs) + 1, Name: name, wake: make(chan struct{}), sched: s, site: "start"}
+	s.nextID++
+	g := &G{ID: s.nextID, Name: name, wake: make(chan struct{}), sched: s, site: "start"}
 	if parent != nil {
 		g.Gen = parent.ChildGen
 		g.ChildGen = parent.ChildGen
